@@ -49,7 +49,7 @@ impl<'e> Lower<'e> {
 
     fn named_ty(&self, name: &str) -> Option<Ty> {
         let name = self.walker.renames.get(&(self.f.module.clone(), name.to_string())).map(|s| s.as_str()).unwrap_or(name);
-        match name { "f32" | "F32" => Some(F32), "f64" | "F64" => Some(F64), "bool" | "Bool" => Some(Bool), "Self" => Some(self.self_ty()), "__m128" | "M128" => Some(M128),
+        match name { "f32" | "F32" => Some(F32), "f64" | "F64" => Some(F64), "bool" | "Bool" => Some(Bool), "Self" => Some(self.self_ty()), "__m128" | "M128" | "f32x4" => Some(M128), "mask32x4" | "u32x4" | "i32x4" => Some(Simd(name.to_string())), "Simd" => Some(Simd("Simd".into())),
             n => if let Some(i) = int_name(n) { Some(Int(i)) } else if self.env.structs.contains_key(n) || self.env.enums.contains_key(n) { Some(Named(n.into())) } else { None } }
     }
 
@@ -58,6 +58,7 @@ impl<'e> Lower<'e> {
         match t {
             F32 | F64 | Int(_) | Bool => Some(vec![(vec![], t.clone())]),
             M128 | M128i => Some((0..4).map(|i| (vec![i], F32)).collect()),
+            Simd(s) => { let lt = match s.as_str() { "mask32x4" => Bool, "u32x4" => Int("u32"), "i32x4" => Int("i32"), _ => return None }; Some((0..4).map(|i| (vec![i], lt.clone())).collect()) }
             Named(n) => { if let Some((g, a)) = n.split_once('<') { let a = self.named_ty(a.trim_end_matches('>'))?; let k = match g { "Vec3" | "Cols3" => 3, "Vec4" | "Cols4" => 4, "Cols2" => 2, "Align16" => 1, _ => return None }; return self.leaves(&Tuple(vec![a; k])); }
                 let fs = self.env.structs.get(n)?; let mut out = vec![]; for (i, (_, ft)) in fs.iter().enumerate() { for (p, lt) in self.leaves(ft)? { let mut q = vec![i]; q.extend(p); out.push((q, lt)); } } Some(out) }
             Tuple(ts) => { let mut out = vec![]; for (i, ft) in ts.iter().enumerate() { for (p, lt) in self.leaves(ft)? { let mut q = vec![i]; q.extend(p); out.push((q, lt)); } } Some(out) }
@@ -68,7 +69,7 @@ impl<'e> Lower<'e> {
     fn build(&self, t: &Ty, leaves: &mut std::vec::IntoIter<Ir>) -> Option<Ir> {
         match t {
             F32 | F64 | Int(_) | Bool => leaves.next(),
-            M128 | M128i => Some(mk((0..4).map(|_| leaves.next()).collect::<Option<Vec<_>>>()?)),
+            M128 | M128i | Simd(_) => Some(mk((0..4).map(|_| leaves.next()).collect::<Option<Vec<_>>>()?)),
             Named(n) => { if let Some((g, a)) = n.split_once('<') { let a = self.named_ty(a.trim_end_matches('>'))?; let k = match g { "Vec3" | "Cols3" => 3, "Vec4" | "Cols4" => 4, "Cols2" => 2, "Align16" => 1, _ => return None }; return self.build(&Tuple(vec![a; k]), leaves); }
                 let fs = self.env.structs.get(n)?.clone(); Some(mk(fs.iter().map(|(_, ft)| self.build(ft, leaves)).collect::<Option<Vec<_>>>()?)) }
             Tuple(ts) => Some(mk(ts.iter().map(|ft| self.build(ft, leaves)).collect::<Option<Vec<_>>>()?)),
@@ -85,7 +86,7 @@ impl<'e> Lower<'e> {
         let slot = self.next; self.next += 1;
         let mut ls = vec![];
         for (i, (_, tt)) in lt.iter().enumerate() { let (p, ft) = &lf[i]; let mut x = Ir::Var(slot); for &k in p { x = proj(k, x); }
-            let x = match (ft, tt) { (a, b) if a == b => x, (Int(_), F32) => prim("PFromBits K32", vec![x]), (F32, Int(_)) => prim("PToBits K32", vec![x]), (a, b) => return Err(format!("view leaf {} as {}", a.show(), b.show())) }; ls.push(x); }
+            let x = match (ft, tt) { (a, b) if a == b => x, (Int(_), F32) => prim("PFromBits K32", vec![x]), (F32, Int(_)) => prim("PToBits K32", vec![x]), (Int(k), Bool) => prim("PICmp INe", vec![x, Ir::LitI(k, 0)]), (Bool, Int(k)) => prim("PSelect", vec![x, Ir::LitI(k, 4294967295), Ir::LitI(k, 0)]), (a, b) => return Err(format!("view leaf {} as {}", a.show(), b.show())) }; ls.push(x); }
         let body = self.build(to, &mut ls.into_iter()).ok_or("build")?;
         self.next -= 1;
         Ok(Ir::Block(vec![St::Let(e)], Box::new(body)))
@@ -119,6 +120,8 @@ impl<'e> Lower<'e> {
         if cands.len() > 1 { return Err(format!("ambiguous {}::{name} ({})", recv.show(), cands.len())); }
         if name == "into" && args.is_empty() {
             if let Some(e) = expected { if e == recv { return Ok((recv.clone(), Callee::Ident)); }
+                fn has_lit(t: &Ty) -> bool { match t { IntLit | FloatLit => true, Tuple(v) => v.iter().any(has_lit), Array(e, _) | Opt(e) => has_lit(e), _ => false } }
+                if has_lit(recv) { if let Some(v) = self.env.trait_impls.get(&("From".into(), e.clone(), "from".into())) { if let Some(&i) = v.iter().find(|&&i| compat(&self.env.fns[i].params[0].1, recv)) { return Ok((e.clone(), Callee::Fn(i))); } } }
                 let find = |target: &Ty| -> Option<usize> { self.env.trait_impls.get(&("From".into(), target.clone(), "from".into())).and_then(|v| v.iter().copied().find(|&i| &self.env.fns[i].params[0].1 == recv)) };
                 if !matches!(e, Unknown(_)) { if let Some(i) = find(e) { return Ok((e.clone(), Callee::Fn(i))); } }
                 if let Tuple(ts) = e { for ((tn, st, mn), idxs) in &self.env.trait_impls { if tn == "From" && mn == "from" { if let Tuple(st_ts) = st { if st_ts.len() == ts.len() { if let Some(&i) = idxs.iter().find(|&&i| &self.env.fns[i].params[0].1 == recv) { return Ok((st.clone(), Callee::Fn(i))); } } } } } }
@@ -160,6 +163,18 @@ impl<'e> Lower<'e> {
             Bool => match name { "eq" => Some((Bool, p("PBEq".into()))), "ne" => Some((Bool, p("PBXor".into()))), "not" => Some((Bool, p("PBNot".into()))), "bitand" => Some((Bool, p("PBAnd".into()))), "bitor" => Some((Bool, p("PBOr".into()))), "bitxor" => Some((Bool, p("PBXor".into()))), _ => None },
             Opt(t) => match name { "unwrap" => Some(((**t).clone(), p("PUnwrap".into()))), _ => None },
             Fmt => match name { "precision" => Some((Opt(Box::new(Int("usize"))), Callee::Ident)), _ => None },
+            M128 => { let m = |s: &str| Simd(s.to_string()); let l1 = |o: &str| Some((M128, p(format!("PLanewise1 {o}")))); let l2 = |o: &str| Some((M128, p(format!("PLanewise2 {o}")))); let cm = |o: &str| Some((m("mask32x4"), p(format!("PMapN (PFCmp K32 {o})")))); let pr = |o: &str| Some((m("mask32x4"), p(format!("PMapN (PFPred K32 {o})"))));
+                match name { "abs" => l1("FAbs"), "floor" => l1("FFloor"), "ceil" => l1("FCeil"), "round" => l1("FRound"), "trunc" => l1("FTrunc"), "sqrt" => l1("FSqrt"), "recip" => l1("FRecipStd"), "signum" => l1("FSignum"), "neg" => l1("FNeg"),
+                    "add" => l2("FAdd"), "sub" => l2("FSub"), "mul" => l2("FMul"), "div" => l2("FDiv"), "rem" => l2("FRem"), "copysign" => l2("FCopysign"), "mul_add" => Some((M128, p("PLanewise3 FFma".into()))),
+                    "simd_eq" => cm("FEq"), "simd_ne" => cm("FNe"), "simd_lt" => cm("FLt"), "simd_le" => cm("FLe"), "simd_gt" => cm("FGt"), "simd_ge" => cm("FGe"),
+                    "is_nan" => pr("FIsNan"), "is_finite" => pr("FIsFinite"), "is_sign_negative" => pr("FSignBit"),
+                    "to_bits" => Some((m("u32x4"), p("PMapN (PToBits K32)".into()))), "to_array" | "as_array" => Some((Array(Box::new(F32), Some(4)), Callee::Ident)),
+                    "reduce_sum" => Some((F32, p("PReduce K32 FAdd 2147483648".into()))), "reduce_product" => Some((F32, p("PReduce K32 FMul 1065353216".into()))),
+                    _ => None } }
+            Simd(s) if s == "mask32x4" => { let me = recv.clone(); match name { "select" => Some((args.first().cloned().unwrap_or(M128), p("PMapN PSelect".into()))), "bitand" => Some((me, p("PMapN PBAnd".into()))), "bitor" => Some((me, p("PMapN PBOr".into()))), "bitxor" => Some((me, p("PMapN PBXor".into()))), "not" => Some((me, p("PMapN PBNot".into()))),
+                    "any" => Some((Bool, p("PAny".into()))), "all" => Some((Bool, p("PAll".into()))), "to_bitmask" => Some((Int("u64"), p("PBitmask".into()))), "test" => Some((Bool, p("PIdx".into()))), "to_array" => Some((Array(Box::new(Bool), Some(4)), Callee::Ident)), "eq" => Some((Bool, p("MASKEQ".into()))), _ => None } }
+            Simd(s) if s == "u32x4" || s == "i32x4" => { let k = if s == "u32x4" { "U32" } else { "I32" }; let me = recv.clone(); match name { "bitand" => Some((me, p(format!("PMapN (PI2 {k} IAnd)")))), "bitor" => Some((me, p(format!("PMapN (PI2 {k} IOr)")))), "bitxor" => Some((me, p(format!("PMapN (PI2 {k} IXor)")))), "not" => Some((me, p(format!("PMapN (PI1 {k} INot)")))),
+                    "to_array" => Some((Array(Box::new(Int(if s == "u32x4" { "u32" } else { "i32" })), Some(4)), Callee::Ident)), _ => None } }
             Slice(_) | Array(_, _) => match name { "len" => Some((Int("usize"), p("PLen".into()))), "as_ptr" | "as_mut_ptr" => Some((recv.clone(), Callee::Ident)), _ => None },
             _ => None,
         }
@@ -173,6 +188,10 @@ impl<'e> Lower<'e> {
         if cands.len() == 1 { return Ok((self.env.fns[cands[0]].ret.clone(), Callee::Fn(cands[0]))); }
         if cands.len() > 1 { return Err(format!("ambiguous assoc {}::{name}", ty.show())); }
         match (ty, name) {
+            (M128, "splat") => return Ok((M128, Callee::Prim("PSet1".into()))), (M128, "from_array") => return Ok((M128, Callee::Ident)), (M128, "from_bits") => return Ok((M128, Callee::Prim("PMapN (PFromBits K32)".into()))),
+            (Simd(s), "from_array") if s == "Simd" => { return match args.first() { Some(Array(e, Some(4))) if **e == F32 => Ok((M128, Callee::Ident)), Some(Array(e, Some(4))) if **e == Bool => Ok((Simd("mask32x4".into()), Callee::Ident)), Some(Array(e, Some(4))) if **e == Int("u32") => Ok((Simd("u32x4".into()), Callee::Ident)), o => Err(format!("Simd::from_array of {:?}", o.map(|t| t.show()))) }; }
+            (Simd(_), "from_array") => return Ok((ty.clone(), Callee::Ident)), (Simd(_), "splat") => return Ok((ty.clone(), Callee::Prim("PSplat 4".into()))),
+            (M128, n) if !args.is_empty() => { if let Some(r) = self.builtin_method(ty, n, &args[1..]) { return Ok(r); } }
             (F32, "from_bits") => return Ok((F32, Callee::Prim("PFromBits K32".into()))), (F64, "from_bits") => return Ok((F64, Callee::Prim("PFromBits K64".into()))),
             (Int(k), "from") => if let Some(Int(a)) = args.first() { return Ok((ty.clone(), Callee::Prim(format!("PCastII {} {}", ikc(a), ikc(k))))); } else if let Some(Bool) = args.first() { return Ok((ty.clone(), Callee::Prim(format!("PCastBI {}", ikc(k))))); },
             (F32 | F64, "from") => match args.first() { Some(Bool) => return Ok((ty.clone(), Callee::Prim(format!("PCastBF {}", fkc(ty))))), Some(Int(a)) => return Ok((ty.clone(), Callee::Prim(format!("PCastIF {} {}", ikc(a), fkc(ty))))), Some(F32) => return Ok((ty.clone(), Callee::Prim(format!("PCastFF K32 {}", fkc(ty))))), _ => {} },
@@ -215,6 +234,7 @@ impl<'e> Lower<'e> {
                 "SHUFFLE" => { let imm = args.pop().unwrap(); let v = match imm { Ir::LitI(_, v) => v, _ => return Err("shuffle imm".into()) }; prim(&format!("PShuffle {v}"), args) }
                 "LOADU" => { let a = args.remove(0); prim("PRange 0 4", vec![a]) }
                 "DERIVED_EQ" => return Err("method-form eq on derived type".into()),
+                "MASKEQ" => { prim("PAll", vec![prim("PMapN PBEq", args)]) }
                 "SET1EPI32" => { let a = args.remove(0); prim("PSet1", vec![prim("PFromBits K32", vec![prim("PCastII I32 U32", vec![a])])]) }
                 s if s.starts_with("SINCOS") => { let k = &s[7..]; let a = args.remove(0); let slot = self.next; Ir::Block(vec![St::Let(a)], Box::new(mk(vec![prim(&format!("PF1 {k} FSin"), vec![Ir::Var(slot)]), prim(&format!("PF1 {k} FCos"), vec![Ir::Var(slot)])]))) }
                 _ => Ir::Prim(p, args) } })
@@ -281,7 +301,8 @@ impl<'e> Lower<'e> {
         for (i, s) in b.stmts.iter().enumerate() {
             match s {
                 Stmt::Local(l) => {
-                    let ann = if let Pat::Type(pt) = &l.pat { Some(self.conv(&pt.ty)) } else { None };
+                    let mut ann = if let Pat::Type(pt) = &l.pat { Some(self.conv(&pt.ty)) } else { None };
+                    if ann.is_none() { if let (Pat::Ident(pi), Some(init)) = (&l.pat, &l.init) { if let Expr::MethodCall(mc) = &*init.expr { if mc.method == "into" { ann = self.lookahead_arg_type(&pi.ident.to_string(), &b.stmts[i + 1..]); } } } }
                     let shape = if let Pat::Tuple(t) = &l.pat { Some(Tuple(t.elems.iter().map(|_| Unknown("_".into())).collect())) } else { None };
                     if let Some(Named(n)) = &ann { if n.starts_with("MaybeUninit<") { if let Pat::Type(pt) = &l.pat { if let Pat::Ident(pi) = &*pt.pat { stmts.push(St::Let(prim("PUninit4", vec![]))); self.bind_new(&pi.ident.to_string(), M128); continue; } } } }
                     let init = l.init.as_ref().ok_or("let without init")?;
@@ -310,6 +331,12 @@ impl<'e> Lower<'e> {
         Ok((t, if stmts.is_empty() { e } else { Ir::Block(stmts, Box::new(e)) }))
     }
 
+    /// type of the parameter that receives local `name` in the first later call `T::f(.., name, ..)` (used for `let x = e.into();`)
+    fn lookahead_arg_type(&self, name: &str, rest: &[Stmt]) -> Option<Ty> {
+        struct V<'a, 'e> { name: &'a str, this: &'a Lower<'e>, found: Option<Ty> }
+        impl<'a, 'e, 'ast> syn::visit::Visit<'ast> for V<'a, 'e> { fn visit_expr_call(&mut self, c: &'ast ExprCall) { if self.found.is_none() { if let Expr::Path(p) = &*c.func { let segs: Vec<String> = p.path.segments.iter().map(|s| s.ident.to_string()).collect(); if segs.len() >= 2 { if let Some(oty) = if segs[segs.len() - 2] == "Self" { Some(self.this.self_ty()) } else { self.this.named_ty(&segs[segs.len() - 2]) } { if let Some(&i) = self.this.env.inherent.get(&(oty, segs.last().unwrap().clone())) { let f = &self.this.env.fns[i]; for (k, a) in c.args.iter().enumerate() { if let Expr::Path(ap) = a { if ap.path.is_ident(self.name) { let k2 = if f.has_self { k.checked_sub(1) } else { Some(k) }; if let Some(k2) = k2 { self.found = f.params.get(k2).map(|x| x.1.clone()); } } } } } } } } } syn::visit::visit_expr_call(self, c); } }
+        let mut v = V { name, this: self, found: None }; for s in rest { syn::visit::Visit::visit_stmt(&mut v, s); } v.found
+    }
     fn stmt_block(&mut self, b: &Block) -> std::result::Result<Vec<St>, String> {
         self.locals.push(HashMap::new()); let saved = self.next; let mut stmts = vec![];
         for s in &b.stmts { match s {
@@ -384,6 +411,9 @@ impl<'e> Lower<'e> {
             Expr::MethodCall(m) if matches!(m.method.to_string().as_str(), "add_assign" | "sub_assign" | "mul_assign" | "div_assign" | "rem_assign") && { let saved = self.next; let r = self.ex(&m.receiver, None); self.next = saved; matches!(r, Ok((F32 | F64 | Int(_), _))) } => {
                 let op: BinOp = match m.method.to_string().as_str() { "add_assign" => parse_quote!(+), "sub_assign" => parse_quote!(-), "mul_assign" => parse_quote!(*), "div_assign" => parse_quote!(/), _ => parse_quote!(%) };
                 let (lt, pl) = self.place(&m.receiver)?; let synth = Expr::Binary(ExprBinary { attrs: vec![], left: m.receiver.clone(), op, right: Box::new(m.args[0].clone()) }); let (_, r) = self.ex(&synth, Some(&lt))?; stmts.push(St::Assign(pl, r)); Ok(()) }
+            Expr::MethodCall(m) if m.method == "set" && m.args.len() == 2 && { let saved = self.next; let r = self.ex(&m.receiver, None); self.next = saved; matches!(r, Ok((Simd(_), _))) } => {
+                let (_, pl) = self.place(&m.receiver)?; let (_, re) = self.ex(&m.receiver, None)?; let (_, ie) = self.ex(&m.args[0], Some(&Int("usize")))?; let (_, ve) = self.ex(&m.args[1], Some(&Bool))?;
+                stmts.push(St::Assign(pl, prim("PUpdDyn", vec![re, ie, ve]))); Ok(()) }
             Expr::MethodCall(m) if self.is_mut_method(m) => {
                 let (rt, pl) = self.place(&m.receiver)?; let name = m.method.to_string(); let (_, re) = self.ex(&m.receiver, None)?;
                 let ptys: Vec<Ty> = self.env.inherent.get(&(rt.clone(), name.clone())).map(|&i| self.env.fns[i].params.iter().map(|p| p.1.clone()).collect()).unwrap_or_default();
@@ -424,6 +454,7 @@ impl<'e> Lower<'e> {
             Expr::Unary(u) => {
                 if let UnOp::Deref(_) = u.op { // pointer-cast idiom: *(self as *const A as *const B)
                     if let Expr::MethodCall(mc) = &*u.expr { if mc.method == "cast" { let inner = if let Expr::Paren(p) = &*mc.receiver { &*p.expr } else { &*mc.receiver }; if let Expr::Cast(c1) = inner { if let Type::Ptr(_) = &*c1.ty { let to = expected.cloned().unwrap_or(self.f.ret.clone()); let (st, se) = self.ex(&c1.expr, None)?; let ir = self.view(se, &st, &to)?; return Ok((to, ir)); } } } }
+                    { let inner = if let Expr::Paren(p) = &*u.expr { &*p.expr } else { &*u.expr }; if let Expr::Cast(c1) = inner { if let (Type::Ptr(p1), Expr::MethodCall(mc)) = (&*c1.ty, &*c1.expr) { if mc.method == "as_ptr" { let (st, se) = self.ex(&mc.receiver, None)?; let to = self.conv(&p1.elem); let ir = self.view(se, &st, &to)?; return Ok((to, ir)); } } } }
                     if let Some((src, to)) = ptr_cast_chain(&u.expr) { let (st, se) = self.ex(src, None)?; let to = self.conv(to); let ir = self.view(se, &st, &to)?; return Ok((to, ir)); }
                     return self.ex(&u.expr, expected); }
                 let (t, x) = self.ex(&u.expr, expected)?;
@@ -453,8 +484,8 @@ impl<'e> Lower<'e> {
             Expr::Index(i) if matches!(&*i.index, Expr::Range(_)) => { let (bt, be) = self.ex(&i.expr, None)?; let Expr::Range(r) = &*i.index else { unreachable!() }; let et = match &bt { Slice(t) | Array(t, _) => (**t).clone(), o => return Err(format!("range index on {}", o.show())) };
                 let lo = match &r.start { Some(e) => self.lit_int(e).ok_or("range start")?, None => 0 }; let hi = match &r.end { Some(e) => self.lit_int(e).ok_or("range end")?, None => return Err("open range".into()) };
                 Ok((Array(Box::new(et), Some((hi - lo) as usize)), prim(&format!("PRange {lo} {hi}"), vec![be])) ) }
-            Expr::Index(i) => { let (bt, be) = self.ex(&i.expr, None)?; if let Some(k) = self.lit_int(&i.index) { if let Array(t, Some(n)) = &bt { if (k as usize) < *n { return Ok(((**t).clone(), proj(k as usize, be))); } } }
-                let (it, ie) = self.ex(&i.index, Some(&Int("usize")))?; match (&bt, &it) { (Array(t, _) | Slice(t), Int(_)) => Ok(((**t).clone(), prim("PIdx", vec![be, ie]))), (Named(_), _) => { let (rt, c) = self.resolve_method(&bt, "index", &[it], expected)?; Ok((rt, self.apply(c, vec![be, ie])?)) } _ => Err(format!("index {} by {}", bt.show(), it.show())) } }
+            Expr::Index(i) => { let (bt, be) = self.ex(&i.expr, None)?; if let Some(k) = self.lit_int(&i.index) { if let Array(t, Some(n)) = &bt { if (k as usize) < *n { return Ok(((**t).clone(), proj(k as usize, be))); } } if bt == M128 && (0..4).contains(&k) { return Ok((F32, proj(k as usize, be))); } }
+                let (it, ie) = self.ex(&i.index, Some(&Int("usize")))?; match (&bt, &it) { (Array(t, _) | Slice(t), Int(_)) => Ok(((**t).clone(), prim("PIdx", vec![be, ie]))), (M128, Int(_)) => Ok((F32, prim("PIdx", vec![be, ie]))), (Named(_), _) => { let (rt, c) = self.resolve_method(&bt, "index", &[it], expected)?; Ok((rt, self.apply(c, vec![be, ie])?)) } _ => Err(format!("index {} by {}", bt.show(), it.show())) } }
             Expr::Tuple(t) => { let mut ts = vec![]; let mut es = vec![]; for (i, e) in t.elems.iter().enumerate() { let ex = match expected { Some(Tuple(x)) => x.get(i), _ => None }; let (a, b) = self.ex(e, ex)?; ts.push(a); es.push(b); } if ts.is_empty() { Ok((Unit, Ir::Unit)) } else { Ok((Tuple(ts), mk(es))) } }
             Expr::Array(a) => { let ex = match expected { Some(Array(t, _)) | Some(Slice(t)) => Some((**t).clone()), _ => None }; let mut et = Unknown("empty".into()); let mut es = vec![]; for e in &a.elems { let (t, x) = self.ex(e, ex.as_ref())?; if !matches!(t, IntLit | FloatLit) || matches!(et, Unknown(_)) { et = t; } es.push(x); } if matches!(et, FloatLit) { let fl = Array(Box::new(self.flavour()), Some(a.elems.len())); return self.ex(e, Some(&fl)); } if matches!(et, IntLit) { return Err("untyped int array literal".into()); } Ok((Array(Box::new(et), Some(a.elems.len())), mk(es))) }
             Expr::Repeat(r) => { let ex = match expected { Some(Array(t, _)) => Some((**t).clone()), _ => None }; let (t, x) = self.ex(&r.expr, ex.as_ref())?; let n = self.lit_int(&r.len).ok_or("repeat len")? as usize; if matches!(t, FloatLit) && ex.is_none() { let fl = Array(Box::new(self.flavour()), Some(n)); return self.ex(e, Some(&fl)); } if matches!(t, IntLit | FloatLit) { return Err("untyped repeat".into()); } Ok((Array(Box::new(t), Some(n)), prim(&format!("PSplat {n}"), vec![x]))) }
@@ -475,6 +506,10 @@ impl<'e> Lower<'e> {
             Expr::Return(r) => { let ret = self.f.ret.clone(); let x = match &r.expr { Some(e) => self.ex(e, Some(&ret))?.1, None => Ir::Unit }; Ok((Never, Ir::Return(Box::new(x)))) }
             Expr::Try(t) => { let (it, x) = self.ex(&t.expr, None)?; match it { Opt(t) => Ok((*t, Ir::Try(Box::new(x)))), Res(t) => Ok((*t, Ir::Try(Box::new(x)))), o => Err(format!("? on {}", o.show())) } }
             Expr::Macro(m) => { let name = path_last(&m.mac.path); match name.as_str() { "panic" | "unimplemented" | "unreachable" => Ok((Never, Ir::Panic)),
+                "simd_swizzle" => { let args = m.mac.parse_body_with(punctuated::Punctuated::<Expr, Token![,]>::parse_terminated).map_err(|e| e.to_string())?; let n = args.len(); if n < 2 || n > 3 { return Err("simd_swizzle arity".into()); }
+                    let Expr::Array(ia) = &args[n - 1] else { return Err("simd_swizzle indices".into()) }; let idx: Option<Vec<i128>> = ia.elems.iter().map(|e| self.lit_int(e)).collect(); let idx = idx.ok_or("simd_swizzle index")?;
+                    let mut vs = vec![]; let mut ty = M128; for a in args.iter().take(n - 1) { let (t, x) = self.ex(a, None)?; ty = t; vs.push(x); }
+                    Ok((ty, prim(&format!("PSwizzle [{}]", idx.iter().map(|i| format!("{i}%nat")).collect::<Vec<_>>().join("; ")), vs))) }
                 "stringify" => Ok((Str, prim(&format!("PStr \"{}\"", m.mac.tokens.to_string().replace(' ', "")), vec![]))),
                 "write" => { let args = m.mac.parse_body_with(punctuated::Punctuated::<Expr, Token![,]>::parse_terminated).map_err(|e| e.to_string())?; let Expr::Lit(ExprLit { lit: Lit::Str(fs), .. }) = &args[1] else { return Err("write! format".into()) }; let fstr = fs.value();
                     // placeholders in order: {} {:?} {:#x} {:.*} ...
@@ -606,6 +641,7 @@ impl<'e> Lower<'e> {
         let ptys: Vec<Ty> = self.env.inherent.get(&(rt.clone(), name.clone())).map(|&i| self.env.fns[i].params.iter().map(|p| p.1.clone()).collect()).unwrap_or_else(|| if rt.is_scalar() { vec![rt.clone(); m.args.len()] } else { vec![] });
         let (mut ts, mut es) = self.args_with(&m.args, &ptys)?;
         let (t, callee) = self.resolve_method(&rt, &name, &ts, expected)?;
+        let mut re = re; if name == "into" { if let Callee::Fn(i) = &callee { let p0 = self.env.fns[*i].params[0].1.clone(); if p0 != rt { re = self.ex(&m.receiver, Some(&p0))?.1; } } }
         if let Callee::Fn(i) = &callee { let p: Vec<Ty> = self.env.fns[*i].params.iter().map(|x| x.1.clone()).collect(); self.retype_lits(&m.args, &mut ts, &mut es, &p)?; if self.env.fns[*i].self_mut { return Err(format!("call of &mut self method {name} in expression position")); } }
         let mut all = vec![re]; all.extend(es); Ok((t, self.apply(callee, all)?))
     }
